@@ -14,7 +14,8 @@ LEVEL = "proof"
 TRUSTED = ["pint model (pyvc/models/pintmodel.py): a unit is a positive real scale factor with dimension exponents; to_base_units().magnitude multiplies them",
            "'same dimensionless solution' follows because the run is a function of the dimensionless data (corollary over C01/C02/C12/C13; mu up to a constant, psi up to a global phase - A5)"]
 ASSUMPTIONS = ["the same dimensionless MESH is shared (Triangle's refinement is not unit-covariant bit-wise: 268 vs 269 sites for um vs nm of the same device)",
-               "Solution.current_density / field_at_position unit handling is covered only by the bounded native run (paired real runs)"]
+               "Solution.field_at_position's kernel call is under a call contract (units handed over), Solution.current_density and vector_potential_at_position are "
+               "executed with symbolic unit factors; magnetic_moment / polygon_fluxoid / get_current_through_paths unit handling only in the bounded native run"]
 EXPLANATION = "the real constructor + Device.Bc2/A0/K0 executed with SYMBOLIC unit scale factors: the dimensionless data equal expressions in physical quantities only"
 
 
@@ -61,6 +62,10 @@ def units():
     return [Unit("TDGLSolver.__init__", "tdgl.solver.solver:TDGLSolver.__init__ + tdgl.device.device:Device.Bc2/A0/K0", lambda m=None: ic.run_init(m, prefixes=("C08.",)), props=["C08"], timeout=900),
             Unit("Solution.field_at_position[call contract]", "tdgl.solution.solution:Solution.field_at_position",
                  lambda m=None: __import__("checks.c20", fromlist=["x"]).run_field_at_position(m, prefixes=("C08.",)), props=["C08"], timeout=300),
+            Unit("Solution.vector_potential_at_position", "tdgl.solution.solution:Solution.vector_potential_at_position",
+                 lambda m=None: __import__("checks.solution_common", fromlist=["x"]).run_vector_potential(m, prefixes=("C08.",)), props=["C08", "C20"], timeout=900),
+            Unit("Solution.load_tdgl_data[current density]", "tdgl.solution.solution:Solution.load_tdgl_data / current_density + tdgl.device.device:Device.K0",
+                 lambda m=None: __import__("checks.solution_common", fromlist=["x"]).run_current_density(m, prefixes=("C08.",)), props=["C08", "C20"], timeout=300),
             Unit("flux per triangle", "lemma over the formula of tdgl.em:uniform_Bz_vector_potential", run_flux, props=["C08", "C04"], timeout=300),
             _h.bounded_unit("physical outputs across unit systems [bounded]", "tdgl.solve / Solution (real runs on one shared mesh)", "C08", _bounded_quick, "same_physical_outputs_in_different_unit_systems[um/mm/nm, static and ramped field]", timeout=900)]
 
@@ -85,6 +90,8 @@ def replay(unit, obl):
 S_ = "tdgl.solver.solver"
 D_ = "tdgl.device.device"
 MUTANTS = [
+    dict(name="current density: K0 left in SI units", edits=[("tdgl.solution.solution", "K0 = self.device.K0.to(f\"{self.current_units} / {self.device.length_units}\")", "K0 = self.device.K0")], units=["Solution.load_tdgl_data[current density]"]),
+    dict(name="vector potential: applied part not converted to the requested units", edits=[("tdgl.solution.solution", "applied = (applied * ureg(f\"{self.field_units} * {device.length_units}\")).to(\n            units\n        )", "applied = (applied * ureg(f\"{self.field_units} * {device.length_units}\"))")], units=["Solution.vector_potential_at_position"]),
     dict(name="J_scale without to_base_units", edits=[(S_, "J_scale = 4 * ((ureg(current_units) / length_units) / K0).to_base_units()", "J_scale = 4 * (ureg(current_units) / length_units) / K0")]),
     dict(name="screening scale in 1/um", edits=[(S_, "A_scale = (ureg(\"mu_0\") / (4 * np.pi) * K0 / A0).to(1 / length_units)", "A_scale = (ureg(\"mu_0\") / (4 * np.pi) * K0 / A0).to_base_units()")]),
     dict(name="A_scale misses the length unit in the numerator", edits=[(S_, "(ureg(field_units) * length_units / (Bc2 * xi * length_units))", "(ureg(field_units) * ureg(\"m\") / (Bc2 * xi * length_units))")]),
